@@ -10,6 +10,7 @@ EXTENDS Integers, Sequences, FiniteSets, TLC, Json, IOUtils
 
 IC == INSTANCE IntCodecs
 CD == INSTANCE Codes
+CK == INSTANCE ChunkDecode
 SU == INSTANCE Succinct
 RP == INSTANCE RePairSpec
 PR == INSTANCE Primes
@@ -78,6 +79,8 @@ TTDec(ev) ==
   LET T == codes[ev.id]
       Cs == (IF ev.ended = 1 /\ ev.out = ev.s THEN <<>> ELSE <<C("C18", "table decoding does not give the encoded string back")>>)
             \o (IF CD!Decode(T, CD!Concat(T, ev.s), <<>>) = ev.s THEN <<>> ELSE <<C("C18", "prefix decoding of the encoded bits does not give the string back")>>)
+            \* the chunk-table algorithm of ChunkDecode.tla with the real chunk width, on the real table and string
+            \o (IF CK!TableDecode(T, 16, CD!Concat(T, ev.s)) = ev.s THEN <<>> ELSE <<C("C18", "ChunkDecode.tla (K = 16) does not give the string back on this table")>>)
   IN  Report(ev, Cs) /\ Keep(<<ls, dac, codes, bs, sq, rp>>)
 TTDecSum(ev) ==
   Report(ev, IF ev.wrong = 0 THEN <<>> ELSE <<C("C18", "table decoding does not give the encoded string back (summary of a large corpus)")>>)
